@@ -514,7 +514,10 @@ def build_b(seed):
             f['interval'] = prng.choice([7, 40])
         elif k == 'F6':
             f['cut'] = prng.random()          # torn input file: keep this fraction of bytes
-            plan[i] = dict(plan[i], route='xml')
+            # ... as a plain file or inside a package directory; half of the time the copy
+            # then completes (same file rewritten in place) and the same path is added again
+            plan[i] = dict(plan[i], route=prng.choice(['xml', 'pkg']),
+                           repair=prng.random() < 0.5)
         plan[i] = dict(plan[i], fault=f)
     return u, plan
 
